@@ -866,3 +866,114 @@ pub fn bombs(ev: Ev) -> Vec<String> {
     v.dedup();
     v
 }
+
+// ---------------------------------------------------------------- repetition workload
+
+/// One construct repeated k times in one input - nested, chained flat, or as an argument list - for
+/// counts around the powers of two where a depth or count guard, a fixed table or a small-vector
+/// threshold would sit (seeded changes C11-r8, C13-r8, C15-r8, C20-r8: nesting guards of 64, 128
+/// and 256 levels, three of them leaking one level per aggregate call). Well-formed, every
+/// operation defined, small values; no `@`. Returns (family, k, text). `max_n` bounds k: the
+/// unoptimised library needs about 12 KiB of stack per nesting level.
+pub fn repetitions(ev: Ev, max_n: usize) -> Vec<(String, usize, String)> {
+    let mut ks: Vec<usize> = vec![2, 3, 5, 9, 15, 16, 17, 31, 32, 33, 48, 100, 126, 127, 128, 129, 130, 131, 192, 200, 254, 255, 256, 257, 258, 300, 384, 400, 500, 511, 512, 513, 640, 1000];
+    ks.extend(60..=68);
+    ks.sort();
+    ks.dedup();
+    ks.retain(|k| *k <= max_n);
+    let mut v: Vec<(String, usize, String)> = vec![];
+    let frac = if ev == Ev::I64 { "7" } else { "2.5" };
+    // nests: (family, open, innermost, close)
+    let mut nests: Vec<(&str, String, String, String)> = vec![
+        ("nest ( )", "(".into(), "7".into(), ")".into()),
+        ("nest -( )", "-(".into(), "7".into(), ")".into()),
+        ("nest 2*( )", "2*(".into(), "1".into(), ")".into()),
+        ("nest 1+( )", "1+(".into(), "1".into(), ")".into()),
+        ("nest ( )+1", "(".into(), "1".into(), ")+1".into()),
+        ("nest abs( )", "abs(".into(), "7".into(), ")".into()),
+        ("nest 1( ) juxtaposed", "1(".into(), "7".into(), ")".into()),
+    ];
+    if has_floorceil_brackets(ev) {
+        nests.push(("nest ⌊ ⌋", "⌊".into(), frac.into(), "⌋".into()));
+        nests.push(("nest ⌈ ⌉", "⌈".into(), frac.into(), "⌉".into()));
+        nests.push(("nest ⌊( )⌋", "⌊(".into(), frac.into(), ")⌋".into()));
+    }
+    if Func::Floor.available(ev) {
+        nests.push(("nest floor( )", "floor(".into(), frac.into(), ")".into()));
+    }
+    if Func::Mod.available(ev) {
+        nests.push(("nest mod( ,1000)", "mod(".into(), "789".into(), ",1000)".into()));
+        nests.push(("nest (( )%(1000))", "((".into(), "789".into(), ")%(1000))".into()));
+    }
+    for (f, a, b) in [("max", "", ",0"), ("max", "0,", ""), ("min", "9,", ""), ("min", "", ",9"), ("avg", "", ""), ("avg", "", ",7"), ("med", "", ""), ("median", "1,", ",9"), ("gcd", "", ",14"), ("lcm", "1,", "")] {
+        let fu = match SPELLINGS.iter().find(|(s, _)| *s == f) {
+            Some((_, fu)) => *fu,
+            None => continue,
+        };
+        if fu.available(ev) {
+            nests.push(("nest aggregate", format!("{}({}", f, a), "7".into(), format!("{})", b)));
+        }
+    }
+    for (fam, open, mid, close) in &nests {
+        // recursion levels per repetition, counted generously: every bracket and operator of the unit
+        let per = open.chars().chain(close.chars()).filter(|c| "(⌊⌈-+*%".contains(*c)).count().max(1) + if open.starts_with(|c: char| c.is_ascii_digit()) { 1 } else { 0 };
+        for k in &ks {
+            if *k * per > max_n {
+                continue;
+            }
+            let fam = if *fam == "nest aggregate" { format!("nest {}…{}", open, close) } else { fam.to_string() };
+            v.push((fam, *k, format!("{}{}{}", open.repeat(*k), mid, close.repeat(*k))));
+        }
+    }
+    // flat chains of k terms
+    let mut terms: Vec<(&str, &str)> = vec![("chain (1)+", "(1)"), ("chain abs(1)+", "abs(1)"), ("chain 2(1)+", "2(1)")];
+    if has_floorceil_brackets(ev) {
+        terms.push(("chain ⌊1.5⌋+", if ev == Ev::I64 { "1" } else { "⌊1.5⌋" }));
+    }
+    if Func::Max.available(ev) {
+        terms.extend([("chain max(1,2)+", "max(1,2)"), ("chain min(3)+", "min(3)"), ("chain avg(1,2,3)+", "avg(1,2,3)"), ("chain med(1,2,3)+", "med(1,2,3)"), ("chain avg()+", "avg()")]);
+    }
+    if Func::Gcd.available(ev) {
+        terms.extend([("chain gcd(4,6)+", "gcd(4,6)"), ("chain lcm(2,3)+", "lcm(2,3)")]);
+    }
+    if has_fact_mod(ev) {
+        terms.push(("chain 3!+", "3!"));
+    }
+    for (fam, t) in &terms {
+        for k in &ks {
+            v.push((fam.to_string(), *k, vec![*t; *k].join("+")));
+        }
+    }
+    for k in &ks {
+        v.push(("juxtaposed (1)(1)…".into(), *k, "(1)".repeat(*k)));
+        v.push(("juxtaposed abs(1)abs(1)…".into(), *k, "abs(1)".repeat(*k)));
+    }
+    // argument lists of k members, members plain or themselves aggregates
+    if Func::Max.available(ev) {
+        for k in &ks {
+            v.push(("list max(1,…)".into(), *k, format!("max({})", (0..*k).map(|i| (i % 9).to_string()).collect::<Vec<_>>().join(","))));
+            v.push(("list avg(max(1,2),…)".into(), *k, format!("avg({})", (0..*k).map(|i| format!("max({},{})", i % 7, i % 5)).collect::<Vec<_>>().join(","))));
+            v.push(("list med(min(3),…)".into(), *k, format!("med({})", (0..*k).map(|i| format!("min({})", i % 11)).collect::<Vec<_>>().join(","))));
+            if Func::Gcd.available(ev) {
+                v.push(("list gcd(lcm(4,6),…)".into(), *k, format!("gcd({})", vec!["lcm(4,6)"; *k].join(","))));
+            }
+        }
+        // closed aggregate calls followed by nested brackets
+        for (m, n) in [(40usize, 30usize), (60, 10), (30, 40), (100, 30), (120, 12), (200, 60), (250, 10), (300, 100)] {
+            if m + n <= max_n {
+                v.push(("chain min(1,2)+ then nest".into(), m + n, format!("{}{}1{}", "min(1,2)+".repeat(m), "(".repeat(n), ")".repeat(n))));
+            }
+        }
+    }
+    v
+}
+
+/// Largest repetition count per build configuration: the unoptimised library overflows an 8 MiB
+/// stack at about 600 nesting levels, the optimised one is far from it at 2000.
+pub fn rep_cap(config: &str) -> usize {
+    if config == "release" {
+        1000
+    } else {
+        400
+    }
+}
